@@ -625,6 +625,11 @@ class Sequences(Sub):
         return s()
 
     def oracle(self, case, rec):
+        import contextlib, io
+        with contextlib.redirect_stdout(io.StringIO()):
+            self._oracle(case, rec)
+
+    def _oracle(self, case, rec):
         ctrl, steps, patience, thr, form = (case[k] for k in ("ctrl", "steps", "patience", "thr", "form"))
         mode = case.get("mode", "agree")
         shape = SHAPES[form]
@@ -635,8 +640,12 @@ class Sequences(Sub):
         if mode == "rel" and ctrl != "R":
             rec.discard_case("the relative-only reading is documented for ReduceToBason alone")
         aut = Automaton(steps, patience)
+        # verbose=True (documented: "prints a message") must only print: one case in three runs with it (stdout is swallowed by the
+        # caller of this oracle).  A decision that depends on what is formatted for printing would be invisible otherwise (seed C20e).
+        verbose = (int(steps) * 7 + int(patience) * 3 + len(case["ev"])) % 3 == 0
+        rec.label("verbose" if verbose else "quiet")
         if ctrl == "R":
-            kw = dict(steps=steps, patience=patience, decreasing=thr, tol=tol)
+            kw = dict(steps=steps, patience=patience, decreasing=thr, tol=tol, verbose=verbose)
             with rec.sut("ReduceToBason()"):
                 c = ReduceToBason(**kw)
                 fresh = dict(vars(ReduceToBason(**kw)))
@@ -646,7 +655,7 @@ class Sequences(Sub):
             has_rej = bool(case["reject_attr"])
             stub = StubOpt(has_rej)
             with rec.sut("StopOnPlateau()"):
-                c = StopOnPlateau(stub, steps=steps, patience=patience, decreasing=thr)
+                c = StopOnPlateau(stub, steps=steps, patience=patience, decreasing=thr, verbose=verbose)
             lasts = [float(case["l0"])]
         soft = set()
         with rec.sut("initial state"):
